@@ -461,9 +461,19 @@ func checkGroupArm(c *Ctx, rule string, fi *FuncInfo, rs *ast.RangeStmt, ownRIB 
 	gv := objOfIdent(info, rs.Value)
 	// the member loops (a validation pass and a resolution pass may be separate loops)
 	var inners []*ast.RangeStmt
-	for _, st := range rs.Body.List {
+	// (the loop body may have been handed, whole, to a helper spliced in: look inside the frame; the helper's
+	// parameters stand for the group and the holder)
+	body := rs.Body.List
+	for depth := 0; depth < 2 && len(body) == 1; depth++ {
+		blk, ok := body[0].(*ast.BlockStmt)
+		if !ok || inlineFrames[blk] == nil {
+			break
+		}
+		body = blk.List
+	}
+	for _, st := range body {
 		if r2, ok := st.(*ast.RangeStmt); ok {
-			if se, ok := ast.Unparen(r2.X).(*ast.SelectorExpr); ok && se.Sel.Name == "NextHop" && objOfIdent(info, se.X) == gv {
+			if se, ok := ast.Unparen(r2.X).(*ast.SelectorExpr); ok && se.Sel.Name == "NextHop" && frameArgRoot(info, fi.Decl, objOfIdent(info, se.X)) == gv {
 				inners = append(inners, r2)
 			}
 		}
@@ -487,7 +497,7 @@ func checkGroupArm(c *Ctx, rule string, fi *FuncInfo, rs *ast.RangeStmt, ownRIB 
 					if as := assignedFromCall(info, n, call); len(as) == 2 {
 						d.ok = as[1]
 					}
-					own := objOfIdent(info, se.X) == ownRIB
+					own := frameArgRoot(info, fi.Decl, objOfIdent(info, se.X)) == ownRIB
 					key := ""
 					if len(call.Args) == 1 {
 						key = resolveKeyLocal(info, call.Args[0])
@@ -759,7 +769,7 @@ func checkResolver(c *Ctx, rule string, fi *FuncInfo, body *ast.BlockStmt, param
 				d := &addEvData{call: call}
 				if as := assignedFromCall(info, n, call); len(as) == 2 {
 					d.ok = as[1]
-					if isHolder(as[0]) {
+					if isHolder(as[0]) || feedsHolder(info, body, as[0], isHolder) {
 						if objOfIdent(info, call.Args[0]) == otherNI {
 							out = append(out, Event{Kind: "switch-to-named", Node: call, Data: d})
 							continue
@@ -1120,4 +1130,24 @@ func ruleRetryAfterInstall(c *Ctx) {
 		})
 		c.check(all, rule, gp.Name, "returns every held operation", c.P.pos(gp.Decl.Pos()), "unconditional append of every map value", "getPending does not return every entry of the pending set")
 	}
+}
+
+// feedsHolder: o is a local whose only use as a value is to be assigned to the holder variable (`x, ok := lookup(ni);
+// …; holder = x`).
+func feedsHolder(info *types.Info, body *ast.BlockStmt, o types.Object, isHolder func(types.Object) bool) bool {
+	if o == nil {
+		return false
+	}
+	feeds := false
+	ast.Inspect(body, func(n ast.Node) bool {
+		as, ok := n.(*ast.AssignStmt)
+		if !ok || len(as.Lhs) != 1 || len(as.Rhs) != 1 {
+			return true
+		}
+		if objOfIdent(info, as.Rhs[0]) == o && isHolder(objOfIdent(info, as.Lhs[0])) {
+			feeds = true
+		}
+		return true
+	})
+	return feeds
 }
